@@ -45,20 +45,26 @@ TurnCame(a, pre) == IF FaultHit(a, pre)
 
 (* expected GenerateType calls, in order: packages in path order, generators in the order given, types sorted; an
    error or death stops right there, an unparseable rendering lets the package's generators finish *)
-RECURSIVE TypeCalls(_, _, _)
-TypeCalls(a, todo, i) ==
+(* the shadow fixture also declares package-level types t1, t2 (names that differ from T1, T2 only in case); sorted by bytes
+   they come after T1, T2 *)
+ExtraTypes(c) == IF c.variant = "shadow" THEN <<"t1", "t2">> ELSE <<>>
+
+RECURSIVE TypeCalls(_, _, _, _)
+TypeCalls(c, a, todo, i) ==
     IF i > Len(todo) THEN <<>>
     ELSE LET p == todo[i]
+             extra(g) == [k \in 1..Len(ExtraTypes(c)) |-> <<p, g, ExtraTypes(c)[k]>>]
              RECURSIVE G(_)
              G(k) == IF k > Len(a.gens) THEN [calls |-> <<>>, stop |-> FALSE]
                      ELSE LET g == a.gens[k]
                               hit == a.fault.kind \in {"err", "die", "panic"} /\ a.fault.pkg = p /\ a.fault.gen = g
                           IN IF hit /\ a.fault.at = "T1" THEN [calls |-> << <<p, g, "T1">> >>, stop |-> TRUE]
-                             ELSE IF hit THEN [calls |-> << <<p, g, "T1">>, <<p, g, "T2">> >>, stop |-> TRUE]
-                             ELSE LET rest == G(k + 1) IN [calls |-> << <<p, g, "T1">>, <<p, g, "T2">> >> \o rest.calls, stop |-> rest.stop]
+                             ELSE IF hit /\ a.fault.at = "T2" THEN [calls |-> << <<p, g, "T1">>, <<p, g, "T2">> >>, stop |-> TRUE]
+                             ELSE IF hit THEN [calls |-> << <<p, g, "T1">>, <<p, g, "T2">> >> \o extra(g), stop |-> TRUE]
+                             ELSE LET rest == G(k + 1) IN [calls |-> << <<p, g, "T1">>, <<p, g, "T2">> >> \o extra(g) \o rest.calls, stop |-> rest.stop]
              r == G(1)
          IN IF r.stop \/ (a.fault.kind = "badsyntax" /\ a.fault.pkg = p /\ a.fault.gen \in ToSet(a.gens)) THEN r.calls
-            ELSE r.calls \o TypeCalls(a, todo, i + 1)
+            ELSE r.calls \o TypeCalls(c, a, todo, i + 1)
 
 ObservedTypeCalls(o) == LET idx == SelectSeq([i \in 1..Len(o.calls) |-> i], LAMBDA i : o.calls[i].kind = "type")
                         IN [k \in 1..Len(idx) |-> <<o.calls[idx[k]].pkg, o.calls[idx[k]].gen, o.calls[idx[k]].type>>]
@@ -97,7 +103,7 @@ Holds(cj, r, quietNow, memoNow) ==
       [] cj = "C02_ErrorNames" -> (hit /\ o.failed) =>
             IF a.fault.kind = "err" THEN o.err_has_gen /\ o.err_has_pkg
             ELSE o.err_pos_in_culprit \/ (o.err_has_gen /\ o.err_has_pkg)
-      [] cj = "C04_CallOrder" -> ObservedTypeCalls(o) = TypeCalls(a, ToDo(a, pre), 1)
+      [] cj = "C04_CallOrder" -> ObservedTypeCalls(o) = TypeCalls(c, a, ToDo(a, pre), 1)
       [] cj = "C04_SameInputSameOutput" ->
             \A p \in Complete(a, pre) : (MemoApplies(c, a, p) /\ MemoKey(c, a, pre, p) \in DOMAIN memoNow) =>
                                           memoNow[MemoKey(c, a, pre, p)] = post.pkgs[p].out
